@@ -91,6 +91,8 @@ func checkLayerReads(c *core.Ctx, ruleVisible, rulePure string) {
 		"(*core/store/overlaydb.OverlayDB).Delete": true,
 		"(*native/storage.CacheDB).put":            true,
 		"(*native/storage.CacheDB).delete":         true,
+		"(*native/storage.CacheDB).Put":            true, // the exported mutators themselves, when the private workers are inlined
+		"(*native/storage.CacheDB).Delete":         true,
 		"(*core/store/overlaydb.MemDB).Delete":     true, // Delete = Put(key, nil)
 	}
 	n := 0
